@@ -680,11 +680,13 @@ let () = register "c03" (fun line ->
 (* ---------------- C04: migration ---------------- *)
 let c04_slot (k : coq_N list) : coq_N = Slot.slot_of Tables.crc16tab Tables.slot_num k
 
-let c04_step (f : string list) : RedisSem.rval Migrate.cstate -> Migrate.mstep option = fun cs ->
+let c04_step (f : string list) : Gossip.gstep option =
   match f with
-  | ["mb"; sl; t] -> Some (Migrate.MBegin (n_of_int (int_of_string sl), n_of_int (int_of_string t)))
-  | ["mk"; hx] -> Some (Migrate.MMoveKey (bytes_of_hex hx))
-  | ["mf"; sl] -> Some (Migrate.MFinish (n_of_int (int_of_string sl)))
+  | ["mb"; sl; t] -> Some (Gossip.GBase (Migrate.MBegin (n_of_int (int_of_string sl), n_of_int (int_of_string t))))
+  | ["mk"; hx] -> Some (Gossip.GBase (Migrate.MMoveKey (bytes_of_hex hx)))
+  | ["mf"; sl] -> Some (Gossip.GBase (Migrate.MFinish (n_of_int (int_of_string sl))))
+  | ["mfl"; sl; b] -> Some (Gossip.GFinishLag (n_of_int (int_of_string sl), nat_of_int (int_of_string b)))
+  | ["ml"; sl] -> Some (Gossip.GLearn (n_of_int (int_of_string sl)))
   | _ -> None
 
 let c04_render (v : RedisSem.rval) : string =
@@ -695,18 +697,22 @@ let c04_render (v : RedisSem.rval) : string =
   | RedisSem.VHash h -> "h:" ^ S.concat "," (L.sort compare (L.map (fun (f, x) -> hx f ^ "=" ^ hx x) h))
   | RedisSem.VSet s -> "S:" ^ S.concat "," (L.sort compare (L.map hx s))
 
+(* the state is Model/Gossip.v's: Model/Migrate.v's cluster plus, per slot, a new owner that has not learned yet *)
 let () = register "c04" (fun line ->
   let (hd, tl) = match Str.bounded_split_delim (Str.regexp_string " # ") line 2 with
     | [a; b] -> (a, b) | _ -> failwith "bad c04 line" in
   let f = Array.of_list (L.filter (fun x -> x <> "") (S.split_on_char ' ' hd)) in
   let layout = Array.make 16384 0 in
   L.iter (fun r -> Scanf.sscanf r "%d-%d=%d" (fun lo hi n -> for s = lo to hi do layout.(s) <- n done)) (S.split_on_char ',' f.(1));
-  let cs = ref { Migrate.ndb = (fun _ _ -> None); own = (fun s -> n_of_int layout.(int_of_n s)); mig = (fun _ -> None) } in
+  let cs = ref { Gossip.gb = { Migrate.ndb = (fun _ _ -> None); own = (fun s -> n_of_int layout.(int_of_n s)); mig = (fun _ -> None) };
+                 lag = (fun _ -> None) } in
+  let settle () = cs := { !cs with Gossip.lag = (fun _ -> None) } in
   let pending = ref [] in
   let dead = ref [] in
   let keys = ref [] in
   let replies = ref [] and execs = ref [] in
-  let steps_of (s : string) = L.filter_map (fun x -> c04_step (L.filter (fun y -> y <> "") (S.split_on_char ' ' x)) !cs) (S.split_on_char ',' s) in
+  let steps_of (s : string) = L.filter_map (fun x -> c04_step (L.filter (fun y -> y <> "") (S.split_on_char ' ' x))) (S.split_on_char ',' s) in
+  let flush () = cs := Gossip.do_gsteps c04_slot !cs !pending; pending := [] in
   L.iter (fun it ->
     let it = S.trim it in
     if it = "" || it = "w" then ()
@@ -728,15 +734,16 @@ let () = register "c04" (fun line ->
            let hook_left = ref hook in
            let rs = L.map (fun s ->
              keys := s.Cluster.sk :: !keys;
-             let pre = !pending in
-             pending := [];
-             let cs1 = Migrate.do_msteps c04_slot !cs pre in
-             let first = cs1.Migrate.own (c04_slot s.Cluster.sk) in
-             let q = { Migrate.q_pre = pre; q_sub = s; q_first = first; q_envs = [[]; !hook_left] } in
-             match Migrate.run_seq RedisSem.sem c04_slot (S (S (S O))) !cs [q] with
+             flush ();
+             let sl = c04_slot s.Cluster.sk in
+             let first = !cs.Gossip.gb.Migrate.own sl in
+             (* the hook fires when the first ASK is sent: a slot whose new owner lags is not migrating, no ASK comes *)
+             let lagging = (!cs.Gossip.lag sl <> None) in
+             let q = { Gossip.gq_pre = []; gq_sub = s; gq_first = first; gq_envs = (if lagging then [] else [[]; !hook_left]) } in
+             match Gossip.grun_seq RedisSem.sem c04_slot !cs [q] with
              | (cs2, [Some ((r, _), h)]) ->
                cs := cs2;
-               if h = S (S O) then hook_left := [];
+               if (not lagging) && int_of_nat h >= 2 then hook_left := [];
                r
              | (cs2, _) -> cs := cs2; Resp.Err (bytes_of_ocaml "LOOP")) subs in
            pending := !hook_left;
@@ -745,22 +752,20 @@ let () = register "c04" (fun line ->
       | ["p"; cnt; hx] ->
         let key = bytes_of_hex hx in
         keys := key :: !keys;
+        flush (); settle ();
         for _ = 1 to int_of_string cnt do
           let s = { Cluster.sk = key; sb = [Resp.Bulk (Some (bytes_of_ocaml "incr")); Resp.Bulk (Some key)] } in
-          let pre = !pending in
-          pending := [];
-          let cs1 = Migrate.do_msteps c04_slot !cs pre in
-          let first = cs1.Migrate.own (c04_slot key) in
-          (match Migrate.run_seq RedisSem.sem c04_slot (S (S (S O))) !cs [{ Migrate.q_pre = pre; q_sub = s; q_first = first; q_envs = [] }] with
+          let first = !cs.Gossip.gb.Migrate.own (c04_slot key) in
+          (match Gossip.grun_seq RedisSem.sem c04_slot !cs [{ Gossip.gq_pre = []; gq_sub = s; gq_first = first; gq_envs = [] }] with
            | (cs2, [Some ((r, _), _)]) -> cs := cs2; replies := val_string r :: !replies
            | (cs2, _) -> cs := cs2; replies := "LOOP" :: !replies);
           execs := "1" :: !execs
         done
-      | ["fo"; i] -> if not (L.mem i !dead) then dead := i :: !dead
+      | ["fo"; i] -> flush (); settle (); if not (L.mem i !dead) then dead := i :: !dead
       | ["mb"; _; t] when L.mem t !dead -> ()
-      | _ -> (match c04_step fs !cs with Some m -> pending := !pending @ [m] | None -> ()))
+      | _ -> (match c04_step fs with Some m -> pending := !pending @ [m] | None -> ()))
     (Str.split (Str.regexp_string " ; ") tl);
-  let final = Migrate.do_msteps c04_slot !cs !pending in
+  let final = (Gossip.do_gsteps c04_slot !cs !pending).Gossip.gb in
   let ks = L.sort_uniq compare (L.map hex_of_bytes !keys) in
   let data = L.filter_map (fun hk ->
     match Migrate.abs c04_slot final (bytes_of_hex hk) with
